@@ -129,9 +129,12 @@ def check_kv(case):
 
 def hrows(tier):
     R = []
-    def add(name, k, L, p, disp, tmark=False):
-        R.append({"row": name, "k": list(k), "L": L, "p": list(p), "disparity": disp, "mark_truncate": tmark, "maxmark": None})
+    def add(name, k, L, p, disp, tmark=False, breaks=None):
+        R.append({"row": name + ("-graded" if breaks else ""), "k": list(k), "L": L, "p": list(p), "disparity": disp,
+                  "mark_truncate": tmark, "maxmark": None, "breaks": breaks})
     if tier != "quick":
+        add("2D-2x2-L1", (2, 2), 1, (2, 2), "inf", breaks=[[0.0, 0.5, 1.0], [0.0, 0.3, 1.0]])
+        add("2D-2x1-L2", (2, 1), 2, (2, 2), 1, breaks=[[0.0, 0.35, 1.0], [0.0, 1.0]])
         add("1D-k2-L3", (2,), 3, (3,), 1, tmark=True)
         add("2D-2x1-L2", (2, 1), 2, (2, 2), 1, tmark=True)
     if tier == "quick":
@@ -140,6 +143,8 @@ def hrows(tier):
         add("1D-k2-L3", (2,), 3, (1,), 1)
         # THB-admissible marking (refine(..., truncate=True)): HB functions interact beyond the disparity
         add("1D-k2-L3", (2,), 3, (2,), 1, tmark=True)
+        # equal degree and number of dofs per direction, different (graded) breakpoints
+        add("2D-2x2-L1", (2, 2), 1, (2, 2), "inf", breaks=[[0.0, 0.5, 1.0], [0.0, 0.3, 1.0]])
         add("2D-2x1-L2", (2, 1), 2, (2, 1), "inf")
     else:
         for p in (1, 2, 3):
@@ -160,7 +165,7 @@ _REFC = {}
 
 def _fine_colloc(M, lv, der):
     """reference collocation matrices (value/der) of the TP space on level lv at a fixed point grid"""
-    key = (M.degs, M.ncoarse, lv, der)
+    key = (M.degs, M.ncoarse, M.mults, repr(M.breaks), lv, der)
     if key not in _REFC:
         mats, grids = [], []
         for d in range(M.dim):
@@ -302,7 +307,8 @@ def state_problems(case):
                         probs.append(("boundary:map:set", "boundary((%d,%d)) maps to functions %s, functions that do not vanish on the face: %s" % (ax, side, sorted(mapping)[:8], nonzero[:8])))
                         continue
                     # the boundary space itself: same refinement restricted to the face
-                    Mb = hmodel.HModel([p for d, p in enumerate(M.degs) if d != ax], [k for d, k in enumerate(M.ncoarse) if d != ax])
+                    Mb = hmodel.HModel([p for d, p in enumerate(M.degs) if d != ax], [k for d, k in enumerate(M.ncoarse) if d != ax],
+                                       breaks=[b for d, b in enumerate(M.breaks) if d != ax] if M.breaks else None)
                     Lb = bhs.numlevels
                     ref_b = [set(tuple(int(x) for x in c) for c in bhs.hmesh.deactivated[l]) for l in range(Lb)]
                     Rb = Mb.rep_hb(ref_b, Lb)
